@@ -212,7 +212,9 @@ def standin(tier, seed):
     def tok_v2(secret, mask, ts=1700000000):
         return "2|%s|%s|%d" % (binascii.b2a_hex(mask).decode(), binascii.b2a_hex(_websocket_mask(mask, secret)).decode(), ts)
     S1, S2 = bytes(range(16)), bytes(range(16, 32))
-    COOKIES = {"none": (None, None), "v1-hex": (tok_v1(S1), S1), "v1-text": ("plain-text-secret", b"plain-text-secret"), "v2": (tok_v2(S1, b"\x01\x02\x03\x04"), S1),
+    S_LONG = bytes(range(64))                                 # e.g. a sha512 digest used as the legacy secret: its version-2 token is 150 characters
+    T_LONG = b"legacy-session-secret-that-is-rather-long-0123456789-abcdefghij"
+    COOKIES = {"none": (None, None), "v1-hex": (tok_v1(S1), S1), "v1-hex-64-bytes": (tok_v1(S_LONG), S_LONG), "v1-text-63-chars": (T_LONG.decode(), T_LONG), "v1-text": ("plain-text-secret", b"plain-text-secret"), "v2": (tok_v2(S1, b"\x01\x02\x03\x04"), S1),
                "v2-zero-mask": (tok_v2(S1, bytes(4)), S1), "malformed-v2": ("2|zz|yy|1", None), "v2-short-mask": ("2|aabb||123", None), "v2-empty-secret": ("2|00000000||123", b""),
                "unknown-version": ("3|abc", None), "v2-bad-ts": ("2|00000000|00|x", None), "huge-version": ("9" * 5000 + "|x", None)}
     masks = [bytes(4), b"\xff" * 4, b"\x01\x02\x03\x04"] + [bytes(rng.randrange(256) for _ in range(4)) for _ in range(29 if tier != "quick" else 5)]
@@ -221,7 +223,7 @@ def standin(tier, seed):
         out = [("none", None, False)]
         if secret is not None:
             good = bool(secret)
-            out.append(("v1", tok_v1(secret) if secret != b"plain-text-secret" else "plain-text-secret", good))
+            out.append(("v1", tok_v1(secret) if secret not in (b"plain-text-secret", T_LONG) else secret.decode(), good))
             for m in masks:
                 out.append(("v2", tok_v2(secret, m), good))
         out += [("other-secret-v1", tok_v1(S2), False), ("other-secret-v2", tok_v2(S2, b"\x09\x08\x07\x06"), False), ("empty", "", False), ("garbage", "2|zz|yy|1", False),
